@@ -138,6 +138,18 @@ func genRef(t *rapid.T) Ref {
 // subscription ids: distinct strings, several of which are equal as numbers
 var subIDs = []string{"A", "B", "a", "sub/3", "", "42", "042", "4.2e1", " 42", "42.0", "unknown"}
 
+// genSub concentrates on two ids (so that one id sees several saves, also to
+// lower positions, and loads in between) and samples the odd ones otherwise.
+func genSub(t *rapid.T, withUnknown bool) string {
+	if rapid.IntRange(0, 9).Draw(t, "commonSub") < 6 {
+		return rapid.SampledFrom([]string{"A", "A", "B"}).Draw(t, "sub")
+	}
+	if withUnknown {
+		return rapid.SampledFrom(subIDs).Draw(t, "sub")
+	}
+	return rapid.SampledFrom(subIDs[:len(subIDs)-1]).Draw(t, "sub")
+}
+
 var limits = []int{-1, 0, 1, 2, 3, 5, 100}
 
 // Gen draws a case for the given store kind ("" = drawn).
@@ -155,7 +167,7 @@ func Gen(store string) func(t *rapid.T) *Case {
 		}
 		n := rapid.IntRange(1, 60).Draw(t, "nops")
 		long := rapid.IntRange(0, 2).Draw(t, "long") == 0 // bias to logs crossing the 9->10 boundary
-		kinds := []string{"append", "append", "append", "read", "read", "stream", "chain", "chainev", "save", "load", "reopen", "append2", "read2"}
+		kinds := []string{"append", "append", "append", "read", "read", "stream", "chain", "chainev", "save", "save", "load", "load", "reopen", "append2", "read2"}
 		if long {
 			kinds = append(kinds, "append", "append", "append", "append", "append", "append")
 		}
@@ -186,10 +198,10 @@ func Gen(store string) func(t *rapid.T) *Case {
 				}
 				op.Limit = rapid.SampledFrom([]int{1, 2, 3, 5, 100, 0}).Draw(t, "limit")
 			case "save":
-				op.Sub = rapid.SampledFrom(subIDs[:len(subIDs)-1]).Draw(t, "sub")
+				op.Sub = genSub(t, false)
 				op.From = genRef(t)
 			case "load":
-				op.Sub = rapid.SampledFrom(subIDs).Draw(t, "sub")
+				op.Sub = genSub(t, true)
 			}
 			c.Ops = append(c.Ops, op)
 		}
